@@ -611,13 +611,39 @@ fn replay(args: &Args) {
                     };
                     cx.judge(&format!("ArrayViewMut1<f64>(step {step})"), "mutable accessors", mut_accessors(&mut vm, &vals, contiguous));
                 }
-                if step == 1 {
+                // the OWNED array of the same layout: slicing an owned array by move keeps the whole
+                // buffer and the stride (a reversed or stepped owned array; `invert_axis`,
+                // `slice_collapse` and `to_owned()` of a reversed view give the same kind of object)
+                {
+                    let moved: Array1<f64> = if n == 0 {
+                        arr.clone().slice_move(s![0..0])
+                    } else if step > 0 {
+                        let end = off + (n as isize - 1) * step + 1;
+                        arr.clone().slice_move(s![off..end;step])
+                    } else {
+                        let lo = off + (n as isize - 1) * step;
+                        arr.clone().slice_move(s![lo..off + 1;step])
+                    };
+                    let cell = format!("Array1<f64>(owned, step {step})");
+                    cx.judge(&cell, "accessors", accessors::<f64, _>(&moved, &lbits, Some(contiguous)));
+                    cx.compare(&cell, battery::<f64, _>(&moved), false);
+                    cx.compare(&cell, battery_f64(&moved), true);
+                    cx.judge(&cell, "outputs", out_matrix::<f64, _>(&moved));
+                    cx.judge(&cell, "mutable accessors", mut_accessors(&mut moved.clone(), &vals, contiguous));
+                    let arc = Arc::new(moved);
+                    cx.compare(&format!("Arc<{cell}>"), battery::<f64, _>(&arc), false);
+                }
+                {
+                    // to_owned() copies a stepped view into standard layout but keeps the negative
+                    // stride of a view that is contiguous in memory
                     let owned = view.to_owned();
-                    cx.judge("Array1<f64>", "accessors", accessors::<f64, _>(&owned, &lbits, Some(true)));
-                    cx.compare("Array1<f64>", battery::<f64, _>(&owned), false);
-                    cx.judge("Array1<f64>", "outputs", out_matrix::<f64, _>(&owned));
+                    let std_layout = owned.as_slice().is_some() || n == 0;
+                    let cell = format!("Array1<f64>(to_owned of step {step})");
+                    cx.judge(&cell, "accessors", accessors::<f64, _>(&owned, &lbits, Some(std_layout)));
+                    cx.compare(&cell, battery::<f64, _>(&owned), false);
+                    cx.judge(&cell, "outputs", out_matrix::<f64, _>(&owned));
                     let arc = Arc::new(owned);
-                    cx.compare("Arc<Array1<f64>>", battery::<f64, _>(&arc), false);
+                    cx.compare(&format!("Arc<{cell}>"), battery::<f64, _>(&arc), false);
                 }
             },
             "chunked" => {
